@@ -1123,7 +1123,13 @@ func (dc *DirectConnection) drainResults() error {
 		}
 
 		if dc.isEOFPacket(data) {
+			more := dc.capability&mysql.ClientProtocol41 > 0 && len(data) >= 5 && binary.LittleEndian.Uint16(data[3:])&mysql.ServerMoreResultsExists > 0
 			dc.conn.RecycleReadPacket()
+			if more {
+				// the reply carries further result sets (CALL, multi statements): read them off as well,
+				// otherwise they answer the next statement sent on this connection
+				return dc.drainMoreResults()
+			}
 			return nil
 		} else if data[0] == mysql.ErrHeader {
 			err := dc.handleErrorPacket(data)
@@ -1131,6 +1137,24 @@ func (dc *DirectConnection) drainResults() error {
 			return err
 		}
 		dc.conn.RecycleReadPacket()
+	}
+}
+
+// drainMoreResults reads and drops the remaining results of a multi-result reply.
+func (dc *DirectConnection) drainMoreResults() error {
+	for {
+		rs, err := dc.readResult(false, 0)
+		if err != nil {
+			if _, ok := err.(*mysql.SQLError); ok {
+				return nil // an ERR packet ends the reply
+			}
+			return err
+		}
+		more := rs.Status&mysql.ServerMoreResultsExists > 0
+		rs.Free()
+		if !more {
+			return nil
+		}
 	}
 }
 
